@@ -56,7 +56,7 @@ def random_specs(rng, n):
                 v.fields = [Field(rng.choice(tys), name="f%d" % j) for j in range(rng.randint(1, 2))]
                 v.named = True
             vs.append(v)
-        out.append(EnumSpec("R%d" % k, vs, role="random", note="random"))
+        out.append(decorate(rng, EnumSpec("R%d" % k, vs, role="random", note="random")))
     return out
 
 
@@ -145,7 +145,18 @@ def program(spec: EnumSpec, pname, tier):
         if v.kind == "tuple":
             api.append("    let _ = e.try_as_%s_ref(); let _ = m.try_as_%s_mut(); let _ = e.clone().try_as_%s();" % (sn, sn, sn))
     api.append("}")
-    hs = [Harness(name="h_is_try_as", body=body, unwind=max(12, len(en) + 3), kind="symbolic",
+    extra_h = []
+    if len(en) > 255:
+        ids = [v.ident for _, v in en]
+        pairs = [(ids[0], ids[256]), (ids[256], ids[0]), (ids[256], ids[256]), (ids[255], ids[255]), (ids[1], ids[-1]), (ids[-1], ids[1]), (ids[0], ids[0])]
+        wb = []
+        for a, b in pairs:
+            wb.append('    assert!(%s::%s.is_%s() == %s, "is_*() partition broken between variants whose ordinals differ by 256");' % (
+                spec.name, a, casing.snake_method(b), "true" if a == b else "false"))
+        extra_h.append(Harness(name="h_is_big_witness", body="\n".join(wb), unwind=4, kind="witness",
+                               desc="concrete rows of the is_*() matrix around the 8-bit boundary: %s" % ", ".join("%s.is_%s" % p for p in pairs),
+                               bound={"pairs": pairs}, functions=["%s::is_*" % spec.name]))
+    hs = extra_h + [Harness(name="h_is_try_as", body=body, unwind=max(12, len(en) + 3), kind="symbolic",
                   desc="for every declared variant with every payload value: exactly one is_*() (none for disabled); try_as_*/_ref/_mut Some iff own variant, fields in order, writes through _mut visible in place",
                   bound={"k": "all %d declared variants" % nv, "payloads": "every value of u8/u16/u32/bool"}, min_covers=ncov, functions=fns)]
     return Program(name=pname, enum_src=src, helper_src=helper, api_src="\n".join(api), harnesses=hs, summary=render_enum(spec), role=spec.role, note=spec.note)
